@@ -26,6 +26,15 @@ def cases(tier, seed):
                 if kind == "list-mixed-units" and (len(sh) < 2 or times != tuple(sorted(times))):
                     continue        # surveys in different velocity units: time-ordered layouts only (keeps the scope small)
                 yield f"{sh}/{times}/{kind}", {"shape": list(sh), "times": list(times), "kind": kind}
+    yield from plot_cases()
+    # call history on ONE sampler: the same observations split into surveys differently on the second call
+    yield "history/5+3-then-3+5", {"kind": "history"}
+
+
+def plot_cases():
+    # plot_rv_curves(apply_mean_v0_offset=True) shifts the epochs of the k-th further source by the mean of dv0_k - also with more than 10 sources
+    for K in (2, 3, 11, 13):
+        yield f"plot/{K}", {"kind": "plot", "K": K}
 
 
 def interleaved(inp):
@@ -43,6 +52,8 @@ def interleaved(inp):
 
 
 def nontrivial(inp):
+    if inp["kind"] in ("plot", "history"):
+        return True
     sh, tm = inp["shape"], inp["times"]
     pos = 0
     spans = []
@@ -59,6 +70,10 @@ def check(inp):
     from thejoker.data_helpers import validate_prepare_data
     fails = []
     bad = lambda name, **d: fails.append((f"twin:validate_prepare_data/{name}", d))
+    if inp["kind"] == "plot":
+        return check_plot(inp)
+    if inp["kind"] == "history":
+        return check_history(inp)
     sh, tm = inp["shape"], inp["times"]
     srcs, pos = [], 0
     rows = []   # (t, rv, err, survey)
@@ -111,4 +126,72 @@ def check(inp):
                 return fails
         if M[r, 0] != 1.0 or abs(M[r, len(sh)] - (row[0] - all_data._t_ref_bmjd)) > 1e-9:
             bad("constant-and-trend-columns", r=r)
+    return fails
+
+
+def check_plot(inp):
+    """K time-disjoint surveys (one epoch each) on a flat orbit model; survey k carries the known offset 10*k km/s.  The plotted data points must be
+    every input epoch, shifted by the mean offset of ITS OWN survey (so that all of them land on the reference survey's level)."""
+    import matplotlib
+    matplotlib.use("Agg")
+    import matplotlib.pyplot as plt
+    import astropy.units as u
+    from astropy.time import Time
+    from thejoker import JokerSamples, RVData
+    from thejoker.plot import plot_rv_curves
+    fails = []
+    K = inp["K"]
+    tref = Time(55000.0, format="mjd", scale="tcb")
+    srcs = [RVData(Time([55000.0 + 10.0 * k], format="mjd", scale="tcb"), [5.0 + 10.0 * k] * u.km / u.s, [0.1] * u.km / u.s) for k in range(K)]
+    s = JokerSamples(t_ref=tref, poly_trend=1, n_offsets=K - 1)
+    n = 2
+    s["P"] = [50.0, 50.0] * u.day
+    s["e"] = [0.0, 0.0]
+    s["omega"] = [0.0, 0.0] * u.rad
+    s["M0"] = [0.0, 0.0] * u.rad
+    s["s"] = [0.0, 0.0] * u.km / u.s
+    s["K"] = [1e-9, 1e-9] * u.km / u.s
+    s["v0"] = [5.0, 5.0] * u.km / u.s
+    for k in range(1, K):
+        s[f"dv0_{k}"] = [10.0 * k - 0.5, 10.0 * k + 0.5] * u.km / u.s
+    fig, ax = plt.subplots()
+    try:
+        plot_rv_curves(s, data=srcs, ax=ax, apply_mean_v0_offset=True)
+        pts = []
+        for cont in ax.containers:
+            line = cont.lines[0] if hasattr(cont, "lines") else None
+            if line is not None:
+                pts += list(zip(line.get_xdata(), line.get_ydata()))
+        if not pts:
+            for line in ax.lines:
+                if len(line.get_xdata()) == K:
+                    pts = list(zip(line.get_xdata(), line.get_ydata()))
+        got = sorted((round(float(x), 6), round(float(y), 6)) for x, y in pts)
+        want = sorted((55000.0 + 10.0 * k, 5.0) for k in range(K))
+        if len(got) != K or any(abs(a[0] - b[0]) > 1e-6 or abs(a[1] - b[1]) > 1e-6 for a, b in zip(got, want)):
+            fails.append(("twin:plot_rv_curves/each-epoch-shifted-by-the-mean-offset-of-its-own-survey", {"K": K, "got": got, "want": want}))
+    finally:
+        plt.close(fig)
+    return fails
+
+
+def check_history(inp):
+    import astropy.units as u
+    from astropy.time import Time
+    import support as S
+    from thejoker import RVData, TheJoker
+    fails = []
+    S.install_kernel()
+    prior = S.default_prior(n_offsets=1)
+    t = 55000.0 + np.arange(8) * 11.0
+    rv = np.array([1.0, -2.0, 0.5, 7.5, 5.0, 8.0, 6.5, 7.0])
+    err = np.full(8, 0.4)
+    mk = lambda sl: RVData(Time(t[sl], format="mjd", scale="tcb"), rv[sl] * u.km / u.s, err[sl] * u.km / u.s)
+    lib = prior.sample(size=6, rng=np.random.default_rng(5))
+    jk = TheJoker(prior, rng=np.random.default_rng(1))
+    jk.marginal_ln_likelihood([mk(slice(0, 5)), mk(slice(5, 8))], lib, in_memory=True)
+    got = jk.marginal_ln_likelihood([mk(slice(0, 3)), mk(slice(3, 8))], lib, in_memory=True)
+    want = TheJoker(prior, rng=np.random.default_rng(1)).marginal_ln_likelihood([mk(slice(0, 3)), mk(slice(3, 8))], lib, in_memory=True)
+    if not np.allclose(got, want, rtol=1e-10, atol=1e-9):
+        fails.append(("twin:TheJoker/survey-labelling-of-this-call-is-used[call-history]", {"got": got, "fresh_sampler": want}))
     return fails
